@@ -295,8 +295,9 @@ type Chan struct {
 	name string
 }
 
-func NewChan(name string) *Chan { return &Chan{name: name} }
-func (c *Chan) Full() bool     { return c.full }
+func NewChan(name string) *Chan     { return &Chan{name: name} }
+func NewChanFull(name string) *Chan { return &Chan{name: name, full: true} }
+func (c *Chan) Full() bool          { return c.full }
 
 func (c *Chan) Send() {
 	S.Yield("send " + c.name)
